@@ -171,6 +171,23 @@ impl StateCheck for C05 {
             }
             Err(e) => out.viol("normalize_idempotent", &[], "", format!("second normalization fails: {e}"), "Ok"),
         }
+        // 4. histories of library calls: reading part of the file, pushing the remaining component and normalizing again
+        //    must reach the data of the whole file (sums by system and tags)
+        let whole = crate::hist::table(&comps);
+        let tt = crate::hist::table_tol(&comps);
+        for v in crate::hist::variants(text, 8) {
+            out.evals += 1;
+            out.compared += 1;
+            out.regime("history_of_calls");
+            match &v.comps {
+                Ok(c) => {
+                    if let Some(d) = crate::hist::table_diff(&crate::hist::table(c), &whole, tt) {
+                        out.viol("same_data_after_edit_and_renormalize", &["history"], v.desc.clone(), d, "the data of the whole file read at once");
+                    }
+                }
+                Err(e) => out.viol("same_data_after_edit_and_renormalize", &["history"], v.desc.clone(), format!("error: {e}"), "the data of the whole file read at once"),
+            }
+        }
     }
 }
 
